@@ -110,3 +110,31 @@ Definition QNumTight : Num Q := {|
   facos := fun a => if Qlebb (-1 # 1) a then if Qlebb a 1 then Ok (Qacos_approx a) else Err Dom else Err Dom;
   fltb := fun a b => Qltb a (b - qmarg a b); fleb := fun a b => Qlebb a (b - qmarg a b);
   feqb := Qeqb |}.
+
+(* Correspondence only: bounded-precision copies of the three instances above for the long end-to-end runs (GroupBCD):
+   every arithmetic result whose denominator has grown past 2^140 is truncated to a multiple of 2^-128, so rationals stop
+   growing over dozens of epochs (exact where the data are dyadic and small; otherwise accurate to ~1e-38, far below the
+   1e-9 at which results are compared).  The rounding is a function of the value, so equal computations stay equal. *)
+Definition QBITS : positive := 340282366920938463463374607431768211456.      (* 2^128 *)
+Definition qround (q : Q) : Q :=
+  if (140 <? Z.pos (Pos.size (Qden q)))%Z then Qred (Qfloor (q * (Zpos QBITS # 1)) # QBITS) else q.
+Definition Qdiv_res_r (a b : Q) : res Q := if Qeqb b 0 then Err DivZero else Ok (qround (Qred (a / b))).
+Definition mkQNumT (lt le eq : Q -> Q -> bool) : Num Q := {|
+  fofZ := fun z => z # 1; fofQ := fun q => Qred q;
+  fadd := fun a b => qround (Qred (a + b)); fsub := fun a b => qround (Qred (a - b)); fmul := fun a b => qround (Qred (a * b));
+  fopp := Qopp; fabs := Qabs; fsign := Qsign;
+  fmax := fun a b => if Qltb a b then b else a; fmin := fun a b => if Qltb b a then b else a;
+  fdiv := Qdiv_res_r;
+  fsqrt := fun a => if Qltb a 0 then Err Dom else Ok (Qsqrt_approx a);
+  fsqrt0 := Qsqrt_approx; fexp := Qexp_approx;
+  flog := fun a => if Qlebb a 0 then Err Dom else Ok (Qln_approx a);
+  fpow := fun a b => if Qltb 0 a then Ok (Qexp_approx (Qtrunc (b * Qln_approx a)))
+                     else if Qeqb a 0 then (if Qltb 0 b then Ok 0 else Err Dom) else Err Dom;
+  fcos := Qcos_approx;
+  facos := fun a => if Qlebb (-1 # 1) a then if Qlebb a 1 then Ok (Qacos_approx a) else Err Dom else Err Dom;
+  fltb := lt; fleb := le; feqb := eq |}.
+Definition QNumT : Num Q := mkQNumT Qltb Qlebb Qeqb.
+Definition QNumTLoose : Num Q :=
+  mkQNumT (fun a b => Qltb a (b + qmarg a b)) (fun a b => Qlebb a (b + qmarg a b)) (fun a b => Qlebb (Qabs (a - b)) (qmarg a b)).
+Definition QNumTTight : Num Q :=
+  mkQNumT (fun a b => Qltb a (b - qmarg a b)) (fun a b => Qlebb a (b - qmarg a b)) Qeqb.
